@@ -17,8 +17,9 @@ func parseCacheControl(ccHeader string) (cacheControl, error) {
 	cc := cacheControl{}
 	// Parse the Cache-Control header for max-age directive
 	for directive := range strings.SplitSeq(ccHeader, ",") {
-		directive = strings.TrimSpace(directive)
-		if directive == "no-cache" || directive == "no-store" {
+		// Directive names are case-insensitive (RFC 9111 section 5.2)
+		directive = strings.ToLower(strings.TrimSpace(directive))
+		if directive == "no-cache" || directive == "no-store" || directive == "private" {
 			cc.noCache = true
 		} else if after, ok := strings.CutPrefix(directive, "max-age="); ok {
 			// max-age directive specifies the maximum amount of time a response is considered fresh in seconds.
